@@ -104,14 +104,14 @@ func (c *Ctx) InstallReachingIn(root *ast.BlockStmt) (undo func()) {
 					tainted[o] = true
 					continue
 				}
+				// allocations and literals are identities, not values: the local keeps its name from
+				// there on (an opaque definition)
 				switch rhs.(type) {
 				case *ast.CompositeLit, *ast.FuncLit:
-					tainted[o] = true
-					continue
+					rhs = nil
 				}
 				if u, ok := rhs.(*ast.UnaryExpr); ok && u.Op == token.AND {
-					tainted[o] = true
-					continue
+					rhs = nil
 				}
 				defs[o] = append(defs[o], def{rhs, s.End(), scopeOf()})
 			}
@@ -138,9 +138,23 @@ func (c *Ctx) InstallReachingIn(root *ast.BlockStmt) (undo func()) {
 				}
 			}
 		case *ast.ValueSpec:
-			for _, id := range s.Names {
-				if o := obj(id); o != nil && len(s.Values) == 0 {
-					tainted[o] = true // zero value then assigned somewhere: keep the name
+			for i, id := range s.Names {
+				o := obj(id)
+				if o == nil {
+					continue
+				}
+				switch {
+				case inLoopOrLit():
+					tainted[o] = true
+				case len(s.Values) == len(s.Names):
+					rhs := s.Values[i]
+					switch rhs.(type) {
+					case *ast.CompositeLit, *ast.FuncLit:
+						rhs = nil
+					}
+					defs[o] = append(defs[o], def{rhs, s.End(), scopeOf()})
+				default:
+					defs[o] = append(defs[o], def{nil, s.End(), scopeOf()}) // zero value: opaque
 				}
 			}
 		}
@@ -188,7 +202,7 @@ func (c *Ctx) InstallReachingIn(root *ast.BlockStmt) (undo func()) {
 				return nil
 			}
 		}
-		return best.rhs
+		return best.rhs // nil for an opaque definition: the name is kept
 	}
 	return func() { c.PosSubst = prev }
 }
